@@ -399,7 +399,8 @@ func (s *Sess) genOp() *Op {
 		op.H = s.dirHandle()
 		op.Name = s.name()
 		op.Target = r.PickS([]string{"", "t", "/some/where", longName(200, 'L'), longName(1000, 'M'), "rel/../path", longName(4096, 'B'), longName(4097+r.Intn(9000), 'N')})
-		if st := s.srv.N.VerifFsState(); st.Balloc.NumFree() < 6 && r.Intn(2) == 0 {
+		if s.srv.N == nil {
+		} else if st := s.srv.N.VerifFsState(); st.Balloc.NumFree() < 6 && r.Intn(2) == 0 {
 			// the disk is nearly full: a target that needs one block more than
 			// there is (the request must fail as a whole)
 			op.Target = longName(int(st.Balloc.NumFree())*BlockSize+1+r.Intn(3000), 'E')
@@ -563,7 +564,8 @@ func (s *Sess) argClass(op *Op) string {
 		n := op.Name
 		if op.K == OpSymlink && len(op.Target) > BlockSize {
 			c += "multiblock-target"
-			if free := s.srv.N.VerifFsState().Balloc.NumFree(); free > 0 && uint64(len(op.Target)) > free*BlockSize {
+			if s.srv.N == nil {
+			} else if free := s.srv.N.VerifFsState().Balloc.NumFree(); free > 0 && uint64(len(op.Target)) > free*BlockSize {
 				c += "-larger-than-free-space"
 			}
 		}
